@@ -82,7 +82,11 @@ pub fn new_boxed<T: MaybeDynSized<Metadata = usize> + ?Sized>(
 /// Clones a [`MaybeDynSized`] by calling [`new_boxed`].
 #[must_use]
 pub fn clone_dyn<T: MaybeDynSized<Metadata = usize> + ?Sized>(tag: &T) -> Box<T> {
-    new_boxed(tag.header().clone(), &[tag.payload()])
+    let header = tag.header().clone();
+    // `payload()` includes the padding of the Rust type: clone only the bytes
+    // that belong to the tag.
+    let payload = &tag.payload()[..header.payload_len()];
+    new_boxed(header, &[payload])
 }
 
 #[cfg(test)]
